@@ -281,9 +281,14 @@ def check_eq(case, ctx):
 # ------------------------------------------------------------------------------------------------ small changes
 @st.composite
 def _fine_cases(draw, tier):
-    d = draw(gen.spline(max_p=3, max_extra=3, vol_max_p=2, vol_max_extra=2, unclamped="maybe", affine_range="maybe",
-                        normalize="maybe"))
-    return {"defn": d, "what": draw(st.sampled_from(["knot", "knot", "coordinate", "weight", "translate"])), "idx": draw(st.integers(0, 10 ** 6)),
+    what = draw(st.sampled_from(["knot", "knot", "coordinate", "weight", "translate"]))
+    if what == "knot" and draw(st.integers(0, 2)) == 0:
+        # a shape kept in its own parameter range with few distinct interior knot values (repeated knots are likely)
+        d = draw(gen.spline(max_p=3, max_extra=4, vol_max_p=2, vol_max_extra=2, affine_range="maybe", normalize=False, kv_style="coarse"))
+    else:
+        d = draw(gen.spline(max_p=3, max_extra=3, vol_max_p=2, vol_max_extra=2, unclamped="maybe", affine_range="maybe",
+                            normalize="maybe"))
+    return {"defn": d, "what": what, "idx": draw(st.integers(0, 10 ** 6)),
             "coord": draw(st.integers(0, 5)), "precision": draw(st.sampled_from([18, 18, 18, 16, 14, 12, 9, 6])),
             "factor": draw(st.sampled_from([100.0, 1000.0, 4096.0, 1048576.0])), "sign": draw(st.sampled_from([1, -1])),
             "route": draw(st.sampled_from(["copy", "rebuild"])), "scale_exp": draw(st.sampled_from([0, 0, 12, 20]))}
@@ -326,12 +331,14 @@ def check_fine(case, ctx):
             ctx.label("no-interior-knot")
             return
         j = inner[(idx // 7) % len(inner)]
-        rep = [i for i in inner if kv[i - 1] == kv[i] or kv[i + 1] == kv[i]]
-        if rep and idx % 2:
-            j = rep[(idx // 7) % len(rep)]          # one copy of a repeated knot is moved away from its twin
+        rep = [i for i in inner if kv[i - 1] == kv[i] and kv[i + 1] > kv[i]]
+        signs = (case["sign"], -case["sign"])
+        if rep and idx % 4:
+            j = rep[(idx // 7) % len(rep)]          # the upper copy of a repeated knot is moved (up, if there is room) away from its twin
+            signs = (1, -1)
             ctx.label("copy-of-a-repeated-knot-moved")
         new = None
-        for sg in (case["sign"], -case["sign"]):
+        for sg in signs:
             y = _bump(kv[j], step, sg, tol)
             if y is not None and kv[j - 1] <= y <= kv[j + 1] and (j - 1 > 0 or y > kv[0]) and (j + 1 < len(kv) - 1 or y < kv[-1]):
                 new = y
